@@ -24,6 +24,9 @@ fn kind_name(k: ErrorKind) -> &'static str {
         ErrorKind::WriteZero => "writeZero",
         ErrorKind::BrokenPipe => "brokenPipe",
         ErrorKind::Interrupted => "interrupted",
+        ErrorKind::InvalidData => "invalidData",
+        ErrorKind::InvalidInput => "invalidInput",
+        ErrorKind::TimedOut => "timedOut",
         _ => "unknown",
     }
 }
@@ -205,6 +208,8 @@ fn gen_steps(rng: &mut Rng, len: usize, style: u64, for_write: bool) -> Vec<Step
 /// `WriteZero` stands for a sink that is full at the offset: it answers `Ok(0)` there (`&mut [u8]`, `Cursor<&mut [u8]>`),
 /// which `write_all` turns into an error of that kind
 const KINDS: &[ErrorKind] = &[ErrorKind::Other, ErrorKind::UnexpectedEof, ErrorKind::BrokenPipe, ErrorKind::WriteZero];
+/// what a source can fail with: also the kinds a decompressing or decrypting reader in front of the file reports
+const READ_KINDS: &[ErrorKind] = &[ErrorKind::Other, ErrorKind::UnexpectedEof, ErrorKind::BrokenPipe, ErrorKind::InvalidData, ErrorKind::InvalidInput, ErrorKind::TimedOut];
 
 fn small_db(rng: &mut Rng, compression: CompressionConfig) -> Database {
     let mut db = Database::new(DatabaseConfig {
@@ -325,7 +330,7 @@ pub fn run_read(ctx: &mut Ctx) {
         offs.dedup();
         for off in offs {
             let style = *rng.pick(&[0u64, 1, 2, 7, 17, 19]);
-            let kind = *rng.pick(KINDS);
+            let kind = *rng.pick(READ_KINDS);
             scheds.push((gen_steps(&mut rng, len, style, false), Some((off, kind))));
         }
         for (steps, fail) in scheds {
@@ -378,14 +383,16 @@ pub fn run_read(ctx: &mut Ctx) {
 pub fn run_write(ctx: &mut Ctx) {
     let mut rng = ctx.rng.fork();
     let ndb = if ctx.thorough { 20 } else { 3 };
-    for di in 0..ndb + 1 {
+    for di in 0..ndb + 2 {
         // the last database has a payload of exactly 5 MiB (a multiple of the 1 MiB block size of the HMAC block stream, and
         // more than any piece size a writer might hand to the sink at once)
-        let big = di == ndb;
+        // … and the one after it a payload of 300 KiB, written to pipe-like sinks that take less than 64 KiB, 4 KiB, 1000 bytes a call
+        let mid = di == ndb + 1;
+        let big = di == ndb || mid;
         let key = DatabaseKey::new().with_password("pw");
         let db = if big {
             let comp = crate::keyop::ref_composite(&Some("pw".to_string()), &None).unwrap();
-            crate::saveop::big_db(&mut rng, 5 << 20, &key, &comp)
+            crate::saveop::big_db(&mut rng, if mid { 300 << 10 } else { 5 << 20 }, &key, &comp)
         } else {
             small_db(&mut rng, CompressionConfig::None)
         };
@@ -402,6 +409,11 @@ pub fn run_write(ctx: &mut Ctx) {
         if big {
             scheds.push((vec![], None));
             scheds.push(((0..total / 65536 + 3).map(|_| Step::Cap(65535)).collect(), None));
+            // pipe-like sinks that take less than any piece a writer might offer: one byte less than 64 KiB, 4 KiB, 1000 bytes
+            let caps: &[usize] = if mid { &[65_535, 4096, 1000] } else { &[65_535] };
+            for cap in caps {
+                scheds.push(((0..2 * (total / cap) + 64).map(|_| Step::Cap(cap - 1)).collect(), None));
+            }
             scheds.push((vec![], Some((total - 1, ErrorKind::Other))));
         }
         for style in 0..=19u64 {
